@@ -69,7 +69,7 @@ def dummyFresh : JS := ⟨[], [], [], [], 0⟩
 def nextText (cfg : Cfg) (d : Dir) : String :=
   match get d Consts.Obfs4.stateFile with
   | none => "fresh"
-  | some _ => outcomeText cfg (start cfg d Args.none dummyFresh).out
+  | some _ => outcomeText cfg (start cfg d Args.empty dummyFresh).out
 
 def recoveryText : Recovery → String
   | .absent => "absent" | .unparsable => "unparsable" | .valid _ => "valid"
